@@ -75,6 +75,8 @@ pub static NONTRIVIAL: AtomicU64 = AtomicU64::new(0);
 pub static EXECUTIONS: AtomicU64 = AtomicU64::new(0);
 /// occurrences of a listed known finding that were tolerated (counted into the report)
 pub static EXCLUDED_KNOWN: AtomicU64 = AtomicU64::new(0);
+/// executions in which more than the 128 MiB log-queue limit was logged but not applied (C15)
+pub static LOGQ_OVER_LIMIT: AtomicU64 = AtomicU64::new(0);
 pub static DIR_COUNTER: AtomicU64 = AtomicU64::new(0);
 
 pub fn violation(sig: &str, detail: String) -> ! {
